@@ -636,11 +636,19 @@ def rule_r8(ctx) -> List[R.Inst]:
     rejects = any(isinstance(n, ast.If) and any(isinstance(x, ast.Raise) for x in n.body) and "columns" in unparse(n.test)
                   for n in ast.walk(fn.node))
     fills = False
+    from ..normal import _guards_to_else
+    import copy as _copy
     for n in ast.walk(fn.node):
         if isinstance(n, ast.For) and "_props" in unparse(n.iter):
-            for x in ast.walk(n):
-                if isinstance(x, ast.If) and "not in" in unparse(x.test) and any(
-                        isinstance(y, ast.Assign) and isinstance(y.targets[0], ast.Subscript) for y in ast.walk(x)):
+            # `if name in df: continue` followed by the fill is `if name in df: continue else: <fill>`
+            body_ = _guards_to_else(_copy.deepcopy(n.body))
+            for x in (y for b_ in body_ for y in ast.walk(b_)):
+                if not (isinstance(x, ast.If) and isinstance(x.test, ast.Compare) and len(x.test.ops) == 1):
+                    continue
+                stores_ = lambda blk: any(isinstance(y, ast.Assign) and isinstance(y.targets[0], ast.Subscript) for b2 in blk for y in ast.walk(b2))  # noqa: E731
+                if isinstance(x.test.ops[0], ast.NotIn) and stores_(x.body):
+                    fills = True
+                if isinstance(x.test.ops[0], ast.In) and stores_(x.orelse) and not stores_(x.body):
                     fills = True
     # the fill must be able to replicate every declared default: a bare `df[col] = default` lets pandas treat a
     # list-valued default as a column of values (length mismatch / wrong cells) — only scalars broadcast
